@@ -76,9 +76,7 @@ func runC06(c C06Case, ev *Evid) (fs []Finding) {
 			}
 		}
 		if h.m.Stats.Z1 {
-			h.db.Close()
-			ev.Discard("Z1-float32-xff-boundary")
-			return nil
+			ev.Class("float32-xff-boundary-met")
 		}
 		if err := h.db.Sync(); err != nil {
 			add("sync-error", "%v", err)
